@@ -2,6 +2,7 @@
 //! inputs and prints what it observed; the exact-rational judge is tools/replay_grid.py.
 //! Amounts travel as text: f64 as the hex bit pattern, Decimal as its exact decimal string.
 use quantities::prelude::*;
+use quantities::Rate;
 use std::cmp::Ordering;
 
 #[cfg(not(feature = "dec"))]
@@ -44,7 +45,7 @@ where
     match mode {
         "units" => {
             for (i, u) in us.iter().enumerate() {
-                println!("{} {} {} {} {:?}", tname, i, u.name().replace(' ', "_"), show(u.scale()), u.symbol());
+                println!("{} {} {} {} {:?} si={}", tname, i, u.name().replace(' ', "_"), show(u.scale()), u.symbol(), u.si_prefix().is_some());
             }
         }
         // one <ui> <a> <vi> <b>: every like operation on (a ui) and (b vi), both operand orders
@@ -68,6 +69,83 @@ where
         _ => panic!("unknown mode"),
     }
 }
+
+// scalar operations and constructors (C08), rates (C13)
+fn scalar_ops<Q>(tname: &str, args: &[String])
+where
+    Q: Quantity + std::ops::Mul<AmountT, Output = Q> + std::ops::Div<AmountT, Output = Q>,
+    AmountT: std::ops::Mul<Q, Output = Q> + std::ops::Mul<<Q as Quantity>::UnitType, Output = Q>,
+    <Q as Quantity>::UnitType: std::ops::Mul<AmountT, Output = Q>,
+{
+    let us = units::<Q>();
+    let (ui, a, k): (usize, AmountT, AmountT) = (args[0].parse().unwrap(), parse_amnt(&args[1]), parse_amnt(&args[2]));
+    let u = us[ui];
+    let q = Q::new(a, u);
+    let (c1, c2) = (a * u, u * a);
+    let (m1, m2, d) = (k * q, q * k, q / k);
+    println!(
+        "scalar {} {} {} {} new_ok={} new={} axu_ok={} axu={} uxa_ok={} uxa={} kxq_ok={} kxq={} qxk_ok={} qxk={} qdk_ok={} qdk={}",
+        tname, ui, show(a), show(k),
+        q.unit() == u, show(q.amount()), c1.unit() == u, show(c1.amount()), c2.unit() == u, show(c2.amount()),
+        m1.unit() == u, show(m1.amount()), m2.unit() == u, show(m2.amount()), d.unit() == u, show(d.amount())
+    );
+}
+
+type TermQ = quantities::mass::Mass;
+fn rate_ops<X>(tname: &str, args: &[String])
+where
+    X: Quantity + std::ops::Mul<Rate<TermQ, X>, Output = TermQ> + std::ops::Div<X, Output = AmountT>,
+    TermQ: std::ops::Div<Rate<TermQ, X>, Output = X>,
+{
+    // rate <X> <ti> <ta> <pm> <pi> <vi> <b> <mi> <m> : rate = ta TermUnit[ti] per pm XUnit[pi]; q = b XUnit[vi]; t = m TermUnit[mi]
+    let xs = units::<X>();
+    let ts = units::<TermQ>();
+    let (ti, ta, pm, pi, vi, b, mi, m): (usize, AmountT, AmountT, usize, usize, AmountT, usize, AmountT) = (
+        args[0].parse().unwrap(), parse_amnt(&args[1]), parse_amnt(&args[2]), args[3].parse().unwrap(),
+        args[4].parse().unwrap(), parse_amnt(&args[5]), args[6].parse().unwrap(), parse_amnt(&args[7]));
+    let rate = Rate::<TermQ, X>::new(ta, ts[ti], pm, xs[pi]);
+    let rate2 = Rate::<TermQ, X>::from_qty_vals(TermQ::new(ta, ts[ti]), X::new(pm, xs[pi]));
+    let comps_ok = rate.term_unit() == ts[ti] && rate.per_unit() == xs[pi] && rate2.term_unit() == ts[ti] && rate2.per_unit() == xs[pi];
+    let rr = rate.reciprocal().reciprocal();
+    let recip = rate.reciprocal();
+    let recip_ok = recip.term_unit() == xs[pi] && recip.per_unit() == ts[ti] && rr.term_unit() == ts[ti] && rr.per_unit() == xs[pi];
+    let q = X::new(b, xs[vi]);
+    let t = TermQ::new(m, ts[mi]);
+    let r1 = rate * q;
+    let r2 = q * rate;
+    let r3 = t / rate;
+    let r4 = t * recip;
+    let idx = |u: <X as Quantity>::UnitType| xs.iter().position(|w| *w == u).unwrap();
+    println!(
+        "rate {} comps_ok={} ta1={} pm1={} ta2={} pm2={} recip_ok={} rta={} rpm={} rrta={} rrpm={} r1_unit_ok={} r1={} r2_unit_ok={} r2={} r3_unit={} r3={} r4_unit={} r4={}",
+        tname, comps_ok, show(rate.term_amount()), show(rate.per_unit_multiple()), show(rate2.term_amount()), show(rate2.per_unit_multiple()),
+        recip_ok, show(recip.term_amount()), show(recip.per_unit_multiple()), show(rr.term_amount()), show(rr.per_unit_multiple()),
+        r1.unit() == ts[ti], show(r1.amount()), r2.unit() == ts[ti], show(r2.amount()),
+        idx(r3.unit()), show(r3.amount()), idx(r4.unit()), show(r4.amount())
+    );
+}
+
+// types without reference unit (C10): every like operation, panics observed with catch_unwind
+fn noref_ops<Q>(tname: &str, args: &[String])
+where
+    Q: Quantity + PartialEq + PartialOrd + std::ops::Add<Q, Output = Q> + std::ops::Sub<Q, Output = Q> + std::ops::Div<Q, Output = AmountT> + std::panic::UnwindSafe + std::panic::RefUnwindSafe,
+{
+    let us = units::<Q>();
+    let (ui, a, vi, b): (usize, AmountT, usize, AmountT) = (args[0].parse().unwrap(), parse_amnt(&args[1]), args[2].parse().unwrap(), parse_amnt(&args[3]));
+    let (p, q) = (Q::new(a, us[ui]), Q::new(b, us[vi]));
+    std::panic::set_hook(Box::new(|_| {}));
+    let add = std::panic::catch_unwind(|| p + q);
+    let sub = std::panic::catch_unwind(|| p - q);
+    let div = std::panic::catch_unwind(|| p / q);
+    let f = |r: &std::thread::Result<Q>| match r { Ok(x) => format!("{}:{}", us.iter().position(|w| *w == x.unit()).unwrap(), show(x.amount())), Err(_) => "panic".to_string() };
+    println!(
+        "noref {} {} {} {} {} eq={} ne={} cmp={} lt={} le={} gt={} ge={} add={} sub={} div={}",
+        tname, ui, show(a), vi, show(b), p == q, p != q, ord(PartialOrd::partial_cmp(&p, &q)), p < q, p <= q, p > q, p >= q,
+        f(&add), f(&sub), match &div { Ok(x) => show(*x), Err(_) => "panic".to_string() }
+    );
+}
+
+include!(concat!(env!("QREPLAY_GEN"), "/derived.rs"));
 
 macro_rules! dispatch {
     ($t:expr, $mode:expr, $args:expr, $($name:literal => $ty:ty),* $(,)?) => {
@@ -121,6 +199,17 @@ fn main() {
         let mode = j[0].as_str();
         let t = j[1].as_str();
         let rest = &j[2..];
+        if mode == "derived" { derived(t, rest); continue; }
+        if mode == "noref" { noref_ops::<quantities::temperature::Temperature>("Temperature", rest); continue; }
+        if mode == "scalar" || mode == "rate" {
+            macro_rules! sr { ($($name:literal => $ty:ty),* $(,)?) => { match t { $($name => if mode == "scalar" { scalar_ops::<$ty>($name, rest) } else { rate_ops::<$ty>($name, rest) },)* other => panic!("unknown type {}", other) } } }
+            sr!("Mass" => quantities::mass::Mass, "Length" => quantities::length::Length, "Duration" => quantities::duration::Duration,
+                "Area" => quantities::area::Area, "Volume" => quantities::volume::Volume, "Speed" => quantities::speed::Speed,
+                "Acceleration" => quantities::acceleration::Acceleration, "Force" => quantities::force::Force, "Energy" => quantities::energy::Energy,
+                "Power" => quantities::power::Power, "Frequency" => quantities::frequency::Frequency, "DataVolume" => quantities::datavolume::DataVolume,
+                "DataThroughput" => quantities::datathroughput::DataThroughput, "Temperature" => quantities::temperature::Temperature);
+            continue;
+        }
         dispatch!(t, mode, rest,
             "Mass" => quantities::mass::Mass,
             "Length" => quantities::length::Length,
